@@ -66,12 +66,12 @@ type Term struct {
 
 // Ctx owns the term table. One per worker.
 type Ctx struct {
-	table map[string]*Term
-	terms []*Term
-	True  *Term
-	False *Term
-	ufs   map[string]string // name -> declaration
-	ufOrd []string
+	table   map[string]*Term
+	terms   []*Term
+	True    *Term
+	False   *Term
+	ufs     map[string]string // name -> declaration
+	ufOrd   []string
 	lowMemo map[uint64]*Term
 }
 
